@@ -10,7 +10,7 @@ from vf.gen import pick_weighted
 from props.C37 import World, gen_world, finish_case, coq_store, CaseWorld, reach, ancestors
 
 ID = "C36"
-THEOREMS = ["C36_refspec_roundtrip", "C36_terminates", "C36_wants_cover", "C36_ref_update", "C36_prune_only_stale", "C36_complete", "C36_shallow_partial", "C36_shallow_eq_refuted"]
+THEOREMS = ["C36_flush_constants", "C36_refspec_roundtrip", "C36_terminates", "C36_wants_cover", "C36_ref_update", "C36_prune_only_stale", "C36_complete", "C36_shallow_partial", "C36_shallow_eq_refuted"]
 MODEL_FILES = ["RefSpec.v", "RevList.v", "PushRules.v", "FetchProto.v"]
 MODELLED = ("remote.go Remote.fetch reference logic: referenceStorageFromRefs, calculateRefs/doCalculateRefs (wildcard, "
             "exact-hash and short-name sources through ExpandRef, symbolic references), getWants, pruneRemotes, "
